@@ -644,7 +644,7 @@ def cases(tier, seed):
         yield {"ctx": "self_assign_x", "e": e_}
     # VAL of texts that are not numbers (0 in Color BASIC), stored over a variable that holds something else
     for arg in (("var", "A$"), ("var", "B$"), ("str", "HELLO"), ("str", ""), ("str", "1X"), ("str", "X1"), ("str", " 5"), ("str", "-"), ("str", "."),
-                ("bin", "+", ("var", "A$"), ("str", "Z"))):
+                ("bin", "+", ("var", "A$"), ("str", "Z")), ("str", "&H1F"), ("str", "&HFF"), ("str", "&H7FFF"), ("bin", "+", ("str", "&H"), ("var", "A$"))):
         v_ = ("fn", "VAL", [arg])
         for ctx in ("self_assign", "assign", "if_noelse", "sub_read"):
             yield {"ctx": ctx, "e": v_}
